@@ -2,6 +2,7 @@ mod asyncworld;
 mod build;
 mod corpus;
 mod crash;
+mod crossworld;
 mod ctx;
 mod driver;
 mod evidence;
